@@ -528,7 +528,7 @@ class Ctx:
                       'outcome sets of the extracted SC model over step boundaries as the oracle')
         if 'instruction_registry_sweep' in cov:
             tb.append('harness/src/bin/p_nested_reg.rs: trap-flag single-stepping of register / unregister / unregister_signal + fork per boundary, raise(SIGUSR1) on the same thread inside the child; the oracle is the property text evaluated in the child')
-        if 'instruction_close_sweep' in cov:
+        if 'instruction_close_sweep' in cov or 'instruction_poll_sweep' in cov:
             tb.append('harness/src/bin/p_nested_close.rs: trap-flag single-stepping + fork per boundary, Handle::close() called inside the SIGTRAP handler of the child')
         if 'instruction_delivery_sweep' in cov or 'instruction_drop_sweep' in cov:
             tb.append('harness/src/bin/p_nested_iter.rs: trap-flag single-stepping + fork per boundary, sigqueue of the real signal inside the child, the shared self-pipe '
